@@ -2,8 +2,8 @@
 Bridge C07: the facts regenerated from the CURRENT source of the ammo decoders (`Pandora.Gen.AmmoDec`, rewritten on every
 check run by /verif/gen, area `ammodec`) are the ones the byte-level model `Pandora.Model.C07` is written for.
 
-A change of the read primitive (ReadString → ReadLine / ReadBytes / ReadSlice, another delimiter, a Scanner with its own
-buffer or split function, a Reader in place of the Scanner), of a
+A change of the read primitive (ReadString → ReadLine / ReadBytes / ReadSlice, another delimiter, a Scanner with another
+buffer limit, with a limit on some constructions only, or with its own split function, a Reader in place of the Scanner), of a
 separator, bracket, length bound, of the method or URL prefix given to `Ammo.Setup`, of the origin of the header map stored
 in the ammo (a clone of the accumulator), or of the json tags of `entity` changes the regenerated text and breaks a lemma
 here — and with it the build of `Pandora.Props.C07`, which imports this file.
@@ -11,13 +11,18 @@ here — and with it the build of `Pandora.Props.C07`, which imports this file.
 import Pandora.Gen.AmmoDec
 import Pandora.Model.C07
 import Pandora.Model.C07Heap
+import Pandora.Model.C07Go
+
+set_option linter.unusedVariables false
+set_option linter.unusedSimpArgs false
 
 namespace Pandora.Bridge.C07
 open Pandora.Model.C07 Pandora.Gen.AmmoDec
 
 /-! ### how the lines are read -/
 
-/-- uri: a `bufio.Scanner` with the default split function and buffer, token limit `bufio.MaxScanTokenSize` = `maxTok` -/
+/-- uri: a `bufio.Scanner` with the default split function, every construction configured with `Buffer(nil, math.MaxInt)`
+(`newLineScanner`, /repo 66b1841) -/
 theorem uriReader_eq : uriReader = uriReaderM := rfl
 
 /-- uripost: `ReadString('\n')`, no limit on the line length -/
@@ -26,8 +31,11 @@ theorem uripostReader_eq : uripostReader = uripostReaderM := rfl
 /-- raw: `ReadString('\n')` -/
 theorem rawReader_eq : rawReader = rawReaderM := rfl
 
-/-- the Scanner limit of the model is the toolchain's `bufio.MaxScanTokenSize` -/
-theorem maxTok_eq : uriReader = .scanner maxTok := rfl
+/-- what the Scanner of the current source means for a line: no token limit — the pass function of the model for /repo
+is `uriPass = uriPassLim none` (a decoder with the default buffer, `LineReader.scanner 65536`, would be
+`uriPassLim (some maxTok)`: `C07_uri_line_limit`, `C07_uri_roundtrip_counterexample`) -/
+theorem uriLimit_none : (match uriReader with | .scanner m => scanLimit m | _ => some 0) = uriLimitM ∧ uriLimitM = none := by
+  decide
 
 /-! ### what is done with a line -/
 
@@ -63,6 +71,173 @@ theorem decodeURI_facts : decodeURISep = [SP] ∧ decodeURIMinParts = 2 := by
 
 /-- `rawDecodeHeader`: size and tag are separated by one blank -/
 theorem rawDecodeHeader_facts : rawHeaderSep = [SP] := by decide
+
+/-! ### the string helpers, regenerated statement by statement (round 3)
+
+`decodeHeaderG`, `decodeURIG`, `rawDecodeHeaderG` are the Go functions `util.DecodeHeader`, `uripost.DecodeURI`,
+`raw.DecodeHeader` re-translated from the current source (named results, early returns, `if init; cond`, index and
+slice expressions as partial operations).  They compute, for EVERY input, what the model's `decodeHeader`, `decodeURI`,
+`rawDecodeHeader` compute, and never reach a panic. -/
+
+/-- how the Go sources name the errors of the model -/
+def errTag : Err → String
+  | .hdrformat => "ErrHeaderFormat"
+  | .emptykey => "ErrEmptyKey"
+  | .wrongsize => "ErrWrongSize"
+  | .ammoformat => "ErrAmmoFormat"
+  | e => e.name
+
+/-- Go's `(values…, err)`: the values count when `err` is nil; `none` = the function panicked -/
+def goResult2 {α β : Type} (r : Except String (α × β × Option String)) : Option (Except String (α × β)) :=
+  match r with
+  | .error _ => none
+  | .ok (a, b, none) => some (.ok (a, b))
+  | .ok (_, _, some e) => some (.error e)
+
+def goResult3 {α β γ : Type} (r : Except String (α × β × γ × Option String)) : Option (Except String (α × β × γ)) :=
+  match r with
+  | .error _ => none
+  | .ok (a, b, c, none) => some (.ok (a, b, c))
+  | .ok (_, _, _, some e) => some (.error e)
+
+def modelResult {α : Type} (r : Except Err α) : Option (Except String α) :=
+  match r with
+  | .ok a => some (.ok a)
+  | .error e => some (.error (errTag e))
+
+/-- a list of at least three elements is its first, its middle and its last -/
+theorem three_parts {α : Type} (h : List α) (hl : ¬ h.length < 3) :
+    ∃ a mid z, h = a :: (mid ++ [z]) ∧ mid ≠ [] := by
+  match h with
+  | [] => simp at hl
+  | a :: r =>
+    have hr : r ≠ [] := by intro e; subst e; simp at hl
+    refine ⟨a, r.dropLast, r.getLast hr, by rw [List.dropLast_concat_getLast hr], ?_⟩
+    intro e
+    have : r.dropLast.length = 0 := by rw [e]; rfl
+    simp only [List.length_dropLast, List.length_cons] at this hl
+    omega
+
+theorem goIdx_zero_cons {α : Type} (a : α) (r : List α) : goIdx (a :: r) 0 = some a := by
+  simp [goIdx]
+
+theorem goIdx_last {α : Type} (a : α) (mid : List α) (z : α) :
+    goIdx (a :: (mid ++ [z])) (((a :: (mid ++ [z])).length : Int) - 1) = some z := by
+  have hlen : (((a :: (mid ++ [z])).length : Int) - 1).toNat = mid.length + 1 := by
+    simp only [List.length_cons, List.length_append, List.length_nil]; omega
+  have hc : 0 ≤ (((a :: (mid ++ [z])).length : Int) - 1) ∧ (((a :: (mid ++ [z])).length : Int) - 1) < ((a :: (mid ++ [z])).length : Int) := by
+    simp only [List.length_cons, List.length_append, List.length_nil]; omega
+  unfold goIdx
+  rw [if_pos hc, hlen]
+  simp
+
+theorem goSlice_mid {α : Type} (a : α) (mid : List α) (z : α) :
+    goSlice (a :: (mid ++ [z])) 1 (((a :: (mid ++ [z])).length : Int) - 1) = some mid := by
+  have hc : (0 : Int) ≤ 1 ∧ (1 : Int) ≤ (((a :: (mid ++ [z])).length : Int) - 1)
+      ∧ (((a :: (mid ++ [z])).length : Int) - 1) ≤ ((a :: (mid ++ [z])).length : Int) := by
+    simp only [List.length_cons, List.length_append, List.length_nil]; omega
+  have hn : ((((a :: (mid ++ [z])).length : Int) - 1) - 1).toNat = mid.length := by
+    simp only [List.length_cons, List.length_append, List.length_nil]; omega
+  unfold goSlice
+  rw [if_pos hc, hn]
+  simp
+
+/-- **`util.DecodeHeader` as it is in the source = `decodeHeader` of the model**, for every string; it never panics
+(the index and slice expressions are guarded by the length test) -/
+theorem decodeHeaderG_eq (ht : decodeHeaderG?.isSome = true) (h : Bytes) :
+    goResult2 (decodeHeaderG h) = modelResult (decodeHeader h) := by
+  first
+  | exact absurd ht (by decide)      -- the helper was not translated in this run: nothing is claimed
+  | (
+    by_cases hl : h.length < 3
+    · have hi : ((h.length : Int) < 3) := by omega
+      simp [decodeHeaderG, decodeHeader, hl, hi, goResult2, modelResult, errTag]
+    · obtain ⟨a, mid, z, rfl, _⟩ := three_parts h hl
+      have hi : ¬ (((a :: (mid ++ [z])).length : Int) < 3) := by
+        simp only [List.length_cons, List.length_append, List.length_nil] at hl ⊢; omega
+      have hdrop : ((a :: (mid ++ [z])).drop 1).dropLast = mid := by simp
+      have hlast : (a :: (mid ++ [z])).getLast? = some z := by
+        have : a :: (mid ++ [z]) = (a :: mid) ++ [z] := rfl
+        rw [this, List.getLast?_append]; rfl
+      unfold decodeHeaderG decodeHeader
+      simp only [hi, hl, decide_false, Bool.false_eq_true, if_false, goIdx_zero_cons, goIdx_last, goSlice_mid, hdrop, hlast,
+        List.head?_cons, Bool.false_or]
+      by_cases ha : a = 91
+      · by_cases hz : z = 93
+        · subst ha; subst hz
+          by_cases hc : (cut 58 mid).2.2 = true
+          · by_cases hk : trimSpace (cut 58 mid).1 = []
+            · simp [hc, hk, LBR, RBR, COLON, goResult2, modelResult, errTag]
+            · simp [hc, hk, LBR, RBR, COLON, goResult2, modelResult]
+          · simp [hc, LBR, RBR, COLON, goResult2, modelResult, errTag]
+        · subst ha
+          have : (z != 93) = true := by simpa using hz
+          have h2 : (some z != some RBR) = true := by simpa [RBR] using hz
+          simp [this, h2, LBR, goResult2, modelResult, errTag]
+      · have : (a != 91) = true := by simpa using ha
+        have h2 : (some a != some LBR) = true := by simpa [LBR] using ha
+        simp [this, h2, goResult2, modelResult, errTag]
+    )
+
+/-- `x[2:]` of a list with at least two elements -/
+theorem goSlice_from2 {α : Type} (a b : α) (r : List α) :
+    goSlice (a :: b :: r) 2 ((a :: b :: r).length : Int) = some r := by
+  have hc : (0 : Int) ≤ 2 ∧ (2 : Int) ≤ ((a :: b :: r).length : Int) ∧ ((a :: b :: r).length : Int) ≤ ((a :: b :: r).length : Int) := by
+    simp only [List.length_cons]; omega
+  have hn : (((a :: b :: r).length : Int) - 2).toNat = r.length := by
+    simp only [List.length_cons]; omega
+  unfold goSlice
+  rw [if_pos hc, hn]
+  simp
+
+theorem goIdx_one_cons {α : Type} (a b : α) (r : List α) : goIdx (a :: b :: r) 1 = some b := by
+  have hc : (0 : Int) ≤ 1 ∧ (1 : Int) < ((a :: b :: r).length : Int) := by
+    simp only [List.length_cons]; omega
+  unfold goIdx
+  rw [if_pos hc]
+  rfl
+
+/-- **`uripost.DecodeURI` as it is in the source = `decodeURI` of the model** (Go's `(bodySize, uri, tag, err)`) -/
+theorem decodeURIG_eq (ht : decodeURIG?.isSome = true) (s : Bytes) :
+    goResult3 (decodeURIG s) = modelResult (decodeURI s) := by
+  first
+  | exact absurd ht (by decide)      -- the helper was not translated in this run: nothing is claimed
+  | (
+    unfold decodeURIG decodeURI
+    cases hp : splitOn 32 s with
+    | nil => simp [SP, hp, goResult3, modelResult, errTag]
+    | cons sz r =>
+      cases r with
+      | nil => simp [SP, hp, goResult3, modelResult, errTag]
+      | cons uri rest =>
+        have hi : ¬ (((sz :: uri :: rest).length : Int) < 2) := by
+          simp only [List.length_cons]; omega
+        simp only [SP, hp, hi, decide_false, Bool.false_eq_true, if_false, goIdx_zero_cons, goIdx_one_cons, goSlice_from2]
+        cases rest with
+        | nil =>
+          cases ha : atoi sz <;> simp [goAtoi, ha, goResult3, modelResult, errTag, join]
+        | cons t ts =>
+          have hg : (((sz :: uri :: t :: ts).length : Int) > 2) := by simp only [List.length_cons]; omega
+          have hg' : ((2 : Int) < ((sz :: uri :: t :: ts).length : Int)) := hg
+          simp only [hg, hg', decide_true, if_true]
+          cases ha : atoi sz <;> simp [goAtoi, ha, goResult3, modelResult, errTag]
+    )
+
+/-- Go's `(reqSize, tag, err)`: an error exactly when the model has none, else the same size and tag -/
+theorem rawDecodeHeaderG_eq (ht : rawDecodeHeaderG?.isSome = true) (s : Bytes) :
+    goResult2 (rawDecodeHeaderG s) =
+      some (match rawDecodeHeader s with
+            | some nt => .ok nt
+            | none => .error "invalid payload size line `%s`. expect `%%d %%s`") := by
+  first
+  | exact absurd ht (by decide)      -- the helper was not translated in this run: nothing is claimed
+  | (
+    unfold rawDecodeHeaderG rawDecodeHeader
+    cases ha : atoi (cut 32 s).1 with
+    | none => simp [SP, goAtoi, ha, goResult2]
+    | some n => simp [SP, goAtoi, ha, goResult2]
+    )
+
 
 /-! ### http/json -/
 
